@@ -204,3 +204,16 @@ def _(h):
     h.true('two values', len(r) == 2)
     h.same('first', r.data[0], X.interp(s1).A)
     h.same('second', r.data[1], X.interp(s2).A)
+
+
+@claim('UnitQuaternion.interp-shortest', split=True, values=True)
+def _(h):
+    """dest given with the far sign and shortest=True: the class method must follow the short arc like slerp"""
+    q0, q1, n, t = pair(h, 1e-3, 1.5)
+    s = h.real('s', 1e-6, 1 - 1e-6)
+    a = UnitQuaternion(q0).interp(s, dest=UnitQuaternion(-q1), shortest=True)
+    b = base.slerp(q0, q1, s)
+    h.eq('same rotation as the short arc', a.R, h.arr(q2r_ref(b)), tol=1e-6)
+    sp, cp = h.sincos(s * t)
+    ref = qmul_ref(q0, [cp, sp * n[0], sp * n[1], sp * n[2]])
+    h.eq('constant rate about the fixed axis', a.R, h.arr(q2r_ref(ref)), tol=1e-6)
